@@ -543,6 +543,21 @@ class Configuration(_Configuration):
         self._cleanup()
 
     def reload(self) -> bool:
+        # A reload which fails, however it fails, leaves what is running as it was.  Only a syntax
+        # error used to be rolled back: a file which could not be read, an exception in a parser or
+        # a validate() failure after the commit left no neighbor at all (or the new, refused, ones)
+        # and the process list of the half parsed file, after which the helper processes were
+        # stopped and no API command matched any peer.
+        neighbors, processes = self.neighbors, self.processes
+        reloaded = self._reload_or_error()
+        if reloaded is not True:
+            self.neighbors = neighbors
+            self.processes = processes
+            self._neighbors = {}
+            self._previous_neighbors = {}
+        return reloaded
+
+    def _reload_or_error(self) -> bool:
         try:
             return self._reload()
         except KeyboardInterrupt:
@@ -596,8 +611,10 @@ class Configuration(_Configuration):
         self._commit_reload()
         self._link()
 
+        # validate() answers True or the (false) result of error.set(): 'if check: return check' returned
+        # True in both cases, so a configuration it refuses was applied all the same
         check = self.validate()
-        if check:
+        if check is not True:
             return check
 
         return True
